@@ -126,10 +126,11 @@ def entry_config(entry, root):
 
 
 # ---------------------------------------------------------------------------------- evaluator
-def _num(macros, name, depth=0):
-    if depth > 20:
-        raise InvalidWorld("macro chain too deep")
-    if name not in macros:
+def _num(macros, name, seen=()):
+    """Value of an identifier in #if arithmetic: undefined -> 0; a macro that (directly or through a
+    chain) expands to a name already being expanded is left alone ("painted blue") and that identifier
+    then counts as 0."""
+    if name not in macros or name in seen:
         return 0
     v = macros[name]
     if v is None or v == "":
@@ -137,7 +138,7 @@ def _num(macros, name, depth=0):
     if re.fullmatch(r"-?\d+", v):
         return int(v)
     if re.fullmatch(r"[A-Za-z_]\w*", v):
-        return _num(macros, v, depth + 1)
+        return _num(macros, v, seen + (name,))
     raise InvalidWorld(f"non-numeric macro {name}={v!r} in arithmetic")
 
 
